@@ -142,7 +142,8 @@ CHECKS.update({
  "C14": _partial("C14", "announced size = gridDistance + 1 (errors passed on, nothing stored); gridPathCells writes out[n] only for n <= distance of the same callee's result, also on "
                  "the failing exits; resolution-mismatch rejection; a failing localIjkToCell makes gridPathCells fail (R-ERRFLOW); the rotation tables / kernels / cube conversion the "
                  "interpolation relies on (T14, T20, T21, T22); localIjkToCell rejects coordinates more than one base cell away before the base-cell lookup (R-UNITVEC); "
-                 "the cube-rounding helper of the interpolation converts its three coordinates alike, each to the nearest integer (R-SYM round3), and receives them computed in double precision (R-SYM width).",
+                 "the cube-rounding helper of the interpolation converts its three coordinates alike, each to the nearest integer (R-SYM round3), and receives them computed in double precision (R-SYM width); with every H3Error callee succeeding and a distance of 0 or 1 (equal or neighbouring cells) "
+                 "gridPathCells originates no error of its own under a condition only isPentagon of an argument decides (guard row near-pairs-succeed).",
                  "contiguity / shortest path (floating interpolation).", "R-CFORM " + CF + "; R-BW " + BW + "; R-GUARD " + G + "; R-ERRFLOW; R-TAB T14,T20,T21,T22 " + TAB + "; R-UNITVEC range-test/typestate rule; R-SYM sibling-agreement rule over the def-use chains of the three coordinates"),
  "C15": _partial("C15", "out[i] only where i < size, E_MEMORY_BOUNDS when the capacity is reached; flags outside {0,1,2,3} => E_OPTION_INVALID on both experimental entry points; "
                  "containment-mode enum/mask witnesses; in each of the four containment modes every cell iterStepPolygonCompact emits has passed, on every path, the success edge of a test "
